@@ -117,10 +117,7 @@ def run(ctx):
     acc = run_shards(__name__, 'shard_pure', ctx, [(i, n) for i in range(n)])
     acc.extra['exhaustive'] = True
     acc.extra['pure_cases'] = acc.evaluations
-    try:
-        from vf.sim import c06sim
-    except ImportError:
-        return acc
+    from vf.sim import c06sim
     acc2 = c06sim.run(ctx)
     acc.merge_dump(acc2.dump())
     return acc
